@@ -87,6 +87,22 @@ def check_us(sec, us, to_pv, to_ns, bad, cap=20, to_span=None):
             bad.append(["pv_to_ns", exp, back, ns])
         else:
             bad.append(None)
+    # other spellings of the same instant: trailing zeros of the fraction
+    # dropped (".5Z", ".123Z"), no fraction at all for whole seconds
+    if us % 10 == 0:
+        head, frac = exp[:-1].split(".")
+        frac = frac.rstrip("0")
+        for alt in ([head + "." + frac + "Z"] if frac else
+                    [head + "Z", head + ".0Z"]):
+            try:
+                back = to_ns(alt)
+            except Exception as e:
+                back = "EXC " + type(e).__name__
+            if back != ns:
+                if len(bad) < cap:
+                    bad.append(["pv_to_ns", alt, back, ns])
+                else:
+                    bad.append(None)
     if to_span is not None:
         # the PV -> OTel path of the tool: pv_event_to_otel
         try:
